@@ -67,6 +67,12 @@ func build(sp Spec) (program, error) {
 			pr.info = analyse(Spec{Ws: sp.Ws, Sig: sigRet1, Level: len(sp.Ws)})
 		}
 		pr.stmts = buildSpine(Spec{Ws: sp.Ws}, iterPayload(sp.A, sp.B, sp.C))
+	case "reswitch":
+		if sp.A < 0 || sp.A > 3 || sp.B < 0 || sp.B > 3 || sp.C < 0 || sp.C > 3 || sp.Pos < 0 || sp.Pos >= len(reswitchForms) {
+			return pr, fmt.Errorf("bad reswitch coordinates")
+		}
+		pr.info = sigInfo{valid: true, target: -1}
+		pr.stmts = buildSpine(Spec{Ws: sp.Ws}, reswitchPayload(sp.A, sp.B, sp.C, sp.Pos))
 	case "stray":
 		if sp.A < 0 || sp.A >= len(strayInner) || sp.B < 0 || sp.B >= len(strayForms) || (sp.Sig != sigBreak && sp.Sig != sigContinue) ||
 			sp.Level < 0 || sp.Level > 1 || sp.Pos < 0 || sp.Pos >= strayPositions(sp.A, sp.Level) {
@@ -187,6 +193,8 @@ func check(pr program) verdict {
 			sig = sigNames[iterSigs[(sp.C-1)%3]]
 		}
 		v.class = kind + "/iteration/" + iterLoops[sp.A] + "/" + sig
+	case "reswitch":
+		v.class = kind + "/switch-executed-again/" + reswitchForms[sp.Pos]
 	}
 	v.detail = detail + confirmPlain(pr.src, obs)
 	return v
@@ -348,6 +356,15 @@ func jobs(c *common.Ctx) []job {
 			ws := ws
 			js = append(js, job{func() []Spec {
 				var specs []Spec
+				for form := range reswitchForms {
+					for a := 0; a < 4; a++ {
+						for b := 0; b < 4; b++ {
+							for cc := 0; cc < 4; cc++ {
+								specs = append(specs, Spec{Fam: "reswitch", Ws: ws, A: a, B: b, C: cc, Pos: form})
+							}
+						}
+					}
+				}
 				for a := range iterLoops {
 					for n := 0; n <= 3; n++ {
 						for cc := 0; cc <= 3*n; cc++ {
